@@ -216,7 +216,10 @@ def _history(R, keyp, desc, make_fn, us, witness):
 
 def _probe_us(rng, n=48):
     us = list(rng.random(n)) + [0.0, 1e-300, 1e-9, 0.5, 1 - 1e-9, 1 - 1e-7, 1 - 1e-5, 0.999]
-    return sorted(set(float(u) for u in us))
+    us = sorted(set(float(u) for u in us))
+    # in no particular order (a batch call must answer each uniform at its own position), with a repeated value
+    us = [us[i] for i in rng.permutation(len(us))]
+    return us + [us[0]]
 
 
 def run_case(case, R):
